@@ -67,7 +67,7 @@ def load_via_public_path(path, target, sender):
 
 
 # =========================================================================== Part A
-INBOUND_A = ("app", "gap_app", "gapfill1", "gapfill3", "gapfill_close", "reset_fwd", "reset_back", "pd_fill", "rr", "tr", "hb")
+INBOUND_A = ("app", "app_pad", "gap_app", "gapfill1", "gapfill3", "gapfill_close", "reset_fwd", "reset_back", "pd_fill", "rr", "tr", "hb")
 
 
 class SimA:
@@ -212,6 +212,9 @@ class SimA:
             T, S = w.T, w.S
             if k == "app":
                 fr = refs.frame("D", n, T, S, [(11, f"p{self.uid}")])
+            elif k == "app_pad":
+                # counterparty renders MsgSeqNum with a fixed width (legal FIX int)
+                fr = refs.frame("D", "%06d" % n, T, S, [(11, f"z{self.uid}")])
             elif k == "gap_app":
                 n = self.peer_seq + 2
                 fr = refs.frame("D", n, T, S, [(11, f"q{self.uid}")])
@@ -286,6 +289,7 @@ class SimB(c07.Sim):
         self.nconn = 0
         self.nrestart = 0
         self.nlogout = 0
+        self.nticks = 0
         self.logon_seen = {"A": False, "B": False}
         self.dead = False
         self.graceful_clean = False  # last outage was a graceful restart with nothing in flight / lost
